@@ -58,7 +58,7 @@ def resample_orientations(
         # Force cumfrac[-1] to be equal to sum(frac_ascending) i.e. 1.
         cumfrac[-1] = 1.0
         # Number of new samples with volume less than each cumulative fraction.
-        count_less = np.searchsorted(cumfrac, rng.random(n_samples))
+        count_less = np.searchsorted(cumfrac, rng.random(n_samples), side="right")
         out_orientations[i, ...] = orient[sort_ascending][count_less]
         out_fractions[i, ...] = frac_ascending[count_less]
     return out_orientations, out_fractions
